@@ -5,6 +5,7 @@ import (
 	"log"
 	"net"
 	"net/netip"
+	"sync"
 
 	"github.com/pkg/errors"
 	"go.brendoncarroll.net/p2p"
@@ -17,6 +18,7 @@ type Conn struct {
 	remoteAddr Addr
 	localAddr  Addr
 	shutdown   chan struct{}
+	closeOnce  sync.Once
 
 	newChanReqs <-chan ssh.NewChannel
 	reqs        <-chan *ssh.Request
@@ -170,6 +172,7 @@ func (c *Conn) RemoteAddr() Addr {
 }
 
 func (c *Conn) Close() error {
+	c.closeOnce.Do(func() { close(c.shutdown) })
 	err := c.sconn.Close()
 	c.swarm.deleteConn(c)
 	return err
